@@ -98,21 +98,24 @@ Definition compat (cn pn : natty) : bool :=
 Definition blist := list (fpr * url).
 
 (* what the waiter forwards / what the handler returned belongs to the client stored in the entry; the relay URL
-   of a match was configured for that client's fingerprint in an installed list, and it is the URL the client
+   of a match was configured for that client's fingerprint in a list installed NOT BEFORE the one current at the
+   client's request ([hist] is newest first, the list current at the request sits at position
+   [length hist - c_epoch c]: the URL comes from a position i <= that one), and it is the URL the client
    was checked against unless the list was re-installed after the client's request; the handler fails only then *)
 Definition minfo_ok (hist : list blist) (e : entry) : Prop :=
   (forall f, e_w e = W_Forward f ->
      exists c, e_cl e = Some c /\ f_offer f = c_offer c /\ f_nat f = c_nat c /\ f_fp f = c_fp c) /\
   (forall m, e_w e = W_Done (PMatch m) ->
      exists c, e_cl e = Some c /\ m_offer m = c_offer c /\ m_nat m = c_nat c /\
-       (exists br, In br hist /\ lookup (c_fp c) br = Some (m_url m)) /\
+       (exists i br, (i + c_epoch c <= length hist)%nat /\ nth_error hist i = Some br /\
+                     lookup (c_fp c) br = Some (m_url m)) /\
        (m_url m = c_url c \/ (c_epoch c < length hist)%nat)) /\
   (e_w e = W_Done PError -> exists c, e_cl e = Some c /\ (c_epoch c < length hist)%nat).
 
 Definition client_ok (cur : blist) (hist : list blist) (ncid : nat) (e : entry) : Prop :=
   forall c, e_cl e = Some c ->
     compat (c_nat c) (e_nat e) = true /\ (c_id c < ncid)%nat /\ (c_epoch c <= length hist)%nat /\
-    (exists br, In br hist /\ lookup (c_fp c) br = Some (c_url c)) /\
+    (exists br, nth_error hist (length hist - c_epoch c) = Some br /\ lookup (c_fp c) br = Some (c_url c)) /\
     (c_epoch c = length hist -> lookup (c_fp c) cur = Some (c_url c)).
 
 Definition answers_ok (e : entry) : Prop :=
@@ -145,7 +148,7 @@ Record Inv (v : version) (s : state) : Prop := {
   inv_cids : forall p q e1 e2 c1 c2, nth_error (entries s) p = Some e1 -> nth_error (entries s) q = Some e2 ->
       e_cl e1 = Some c1 -> e_cl e2 = Some c2 -> c_id c1 = c_id c2 -> p = q;
   inv_done_cids : forall cid n fp o r, In (cid, n, fp, o, r) (done_clients s) -> (cid < next_cid s)%nat;
-  inv_hist : In (bridges s) (br_hist s)
+  inv_hist : nth_error (br_hist s) 0 = Some (bridges s)   (* the current list is the newest installed one *)
 }.
 
 Lemma inv_init v br : Inv v (init br).
@@ -157,8 +160,11 @@ Proof.
   - intros p e a H. destruct p; discriminate.
   - intros p q e1 e2 c1 c2 H. destruct p; discriminate.
   - intros cid n fp o r [].
-  - left. reflexivity.
+  - reflexivity.
 Qed.
+
+Lemma inv_hist_in v s : Inv v s -> In (bridges s) (br_hist s).
+Proof. intros I. eapply nth_error_In. apply (inv_hist v s I). Qed.
 
 (* ------------------------------------------------------------------ *)
 (* count_live under updates                                              *)
@@ -235,14 +241,14 @@ Lemma entry_ok_install v cur hist n e br : entry_ok v cur hist n e -> entry_ok v
 Proof.
   intros [A [[B1 [B2 B3]] [C [D E]]]]. unfold entry_ok. split; [exact A|]. split; [|split; [|split; assumption]].
   - split; [exact B1|]. split.
-    + intros m Hm. destruct (B2 m Hm) as [c [X [Y [Z [[b [Hb Hl]] W]]]]]. exists c.
+    + intros m Hm. destruct (B2 m Hm) as [c [X [Y [Z [[i [b [Hi [Hb Hl]]]] W]]]]]. exists c.
       split; [exact X|]. split; [exact Y|]. split; [exact Z|]. split.
-      * exists b. split; [right; exact Hb | exact Hl].
+      * exists (S i), b. split; [cbn [length]; lia | split; [exact Hb | exact Hl]].
       * destruct W as [W|W]; [left; exact W | right; cbn [length]; lia].
     + intros Hm. destruct (B3 Hm) as [c [X Y]]. exists c. split; [exact X | cbn [length]; lia].
   - intros c Hc. destruct (C c Hc) as [X [Y [Z [[b [Hb Hl]] W]]]].
     split; [exact X|]. split; [exact Y|]. split; [cbn [length]; lia|]. split.
-    + exists b. split; [right; exact Hb | exact Hl].
+    + exists b. split; [|exact Hl]. cbn [length]. rewrite Nat.sub_succ_l by exact Z. exact Hb.
     + cbn [length]. intros Heq. lia.
 Qed.
 
